@@ -129,17 +129,17 @@ def build(case):
     return doc, els
 
 
-GUARD_S = 20                 # no call on these trees (<= ~60 elements) legitimately runs anywhere near this long
+GUARD_S = 10                 # CPU seconds; no call on these trees (<= ~60 elements) legitimately burns anywhere near this much
 CONFIRM_STEPS = 3_000_000    # traced line events inside soupsieve that decide "does not terminate"
 SLOW = []
 
 
 def guarded(fn, fails, what):
-    """Run one library call.  A call still running after GUARD_S seconds is a *suspected* hang: it is interrupted and
+    """Run one library call.  A call that has burnt GUARD_S seconds of CPU is a *suspected* hang: it is interrupted and
     run again under the line-event counter; only exceeding CONFIRM_STEPS steps is reported (clock-free verdict), a call
     that is merely slow is noted as inconclusive.  Returns ('ok', value) | ('raise', exc) | ('timeout', None)."""
     try:
-        with common.wall_guard(GUARD_S):
+        with common.cpu_guard(GUARD_S):
             return ('ok', fn())
     except common.CallTimeout:
         pass
@@ -151,7 +151,7 @@ def guarded(fn, fails, what):
         SLOW.append(what)
     except StepBudget:
         fails.append(('matching-does-not-terminate-in-step-budget',
-                      f'{what} was still running after {GUARD_S} s and then exceeded {CONFIRM_STEPS} traced steps inside soupsieve'))
+                      f'{what} had burnt {GUARD_S} s of CPU and then exceeded {CONFIRM_STEPS} traced steps inside soupsieve'))
     except common.CallTimeout:
         SLOW.append(what + ' (traced run also slow without making steps)')
     except Exception:  # noqa: BLE001
